@@ -122,7 +122,31 @@ def o_key_forms(rec: Recorder, case, soft=False):
         rec.fail("C13/token/sha1/digits6", "token differs from reference", "key_forms", case, None, None, soft=soft)
 
 
-ORACLES = {"generate": o_generate, "key_forms": o_key_forms}
+@oracle(PROPERTY, "rekey")
+def o_rekey(rec: Recorder, case, soft=False):
+    """history on ONE object: generate, replace the key, generate again -- every token follows the key the object reports"""
+    from passlib.totp import TOTP
+
+    keys, alg, digits, period, times = case["keys"], case["alg"], case["digits"], case["period"], case["times"]
+    otp = TOTP(key=keys[0], format="raw", alg=alg, digits=digits, period=period)
+    for i, key in enumerate(keys):
+        if i:
+            otp.key = key
+        if otp.key != key or bytes.fromhex(otp.hex_key) != key:
+            rec.fail("C13/rekey/key-attr", "assigning .key does not change the reported key", "rekey", case, otp.hex_key, key.hex(), soft=soft)
+            return
+        for t in times:
+            got, exp = otp.generate(t).token, R.totp(key, t, period, digits, alg)
+            if got != exp:
+                rec.fail("C13/rekey/stale-token", f"after {'re-keying' if i else 'creation'} the object generates a token that is not the RFC value for the key it reports (step {i})", "rekey", case, got, exp, soft=soft)
+                return
+            m = otp.match(exp, t, window=0)
+            if m.counter != t // period:
+                rec.fail("C13/rekey/match", "match() of the reference token for the current key fails", "rekey", case, m.counter, t // period, soft=soft)
+                return
+
+
+ORACLES = {"generate": o_generate, "key_forms": o_key_forms, "rekey": o_rekey}
 
 
 def _cases():
@@ -224,7 +248,26 @@ def t_key_forms(rec, seed, tier):
     hyp_campaign(rec, body, cases, n, seed)
 
 
+def t_rekey(rec, seed, tier):
+    from hypothesis import strategies as st
+
+    n = 300 if tier == "quick" else 4000
+    cases = st.fixed_dictionaries({
+        "keys": st.lists(st.binary(min_size=10, max_size=40), min_size=2, max_size=4), "alg": st.sampled_from(["sha1", "sha256", "sha512"]),
+        "digits": st.integers(6, 10), "period": st.sampled_from([1, 30, 60]), "times": st.lists(st.integers(0, 1 << 34), min_size=1, max_size=3),
+    })
+
+    def body(case):
+        rec.ev()
+        rec.nt("rekey", tuple(case["keys"]), case["alg"], case["digits"], case["period"], tuple(case["times"]))
+        rec.count(f"rekey:{len(case['keys'])}-keys")
+        rec.sample("rekey", case)
+        o_rekey(rec, case)
+
+    hyp_campaign(rec, body, cases, n, seed)
+
+
 def tasks(tier):
     ts = [{"name": f"generate-{i}", "fn": "t_generate", "kw": {"shard": i}} for i in range(4 if tier == "quick" else 12)]
-    ts += [{"name": "leading-zero", "fn": "t_leading_zero"}, {"name": "key-forms", "fn": "t_key_forms"}]
+    ts += [{"name": "leading-zero", "fn": "t_leading_zero"}, {"name": "key-forms", "fn": "t_key_forms"}, {"name": "rekey", "fn": "t_rekey"}]
     return ts
